@@ -14,3 +14,9 @@ open Gossamer.C30
 #print axioms C30_incoming_banned_rejected
 #print axioms run_inv
 #print axioms run_inv2
+#print axioms C30_sortedPeers
+#print axioms C30_sortedPeers_not_banned
+#print axioms C30_actor_fifo
+#print axioms C30_actor_drained
+#print axioms C30_handler_inv
+#print axioms C30_handler_slots_partial
